@@ -515,6 +515,10 @@ def exclusion_grid():
         add('make', '1', version=v, eci=True)
         add('make', '书', version=v, mode='hanzi')
         add('make_sequence', '1', version=v)
+        for sc in (1, 2, 3, 16):
+            # Structured Append with a Micro QR version, also when a symbol count is given
+            add('make_sequence', 'ABCDEFGH12345678', version=v, symbol_count=sc)
+            add('make_sequence', '12345678901234567', version=v, symbol_count=sc, error='L')
         add('make', '1', version=v, micro=False)
         for mask in (4, 5, 7, 8, '4'):
             add('make', '1', version=v, mask=mask)
